@@ -27,7 +27,9 @@ I31 == -8        \* 0x7FFFFFFF
 
 CellClasses(n, i) == {0, i, (i + 1) % (IF n = 0 THEN 1 ELSE n), n, n + 1, MAXREG, FREE, ENDC, FATM, DIFATM, INVALIDM, U31, I31}
 LinkClasses(ns, i) == {NO, 0, i, (i + 1) % ns, ns, ns + 7, MAXREG, U31, ENDC}
-SizeClasses(cur) == {0, 1, 63, 64, 65, 4095, 4096, 4097, cur + 1, cur + SLen, U31, -12, -11, -10, -13}
+\* -10 u64::MAX, -11 2^32, -12 2^32-1, -13 2^32+100, -14 / -15 the largest multiples of 64 below 2^64 / 2^63
+\* (a root entry's length must be a multiple of the mini sector length to be accepted at all)
+SizeClasses(cur) == {0, 1, 63, 64, 65, 4095, 4096, 4097, cur + 1, cur + SLen, U31, -12, -11, -10, -13, -14, -15}
 HdrInts == {"minor", "major", "bom", "sshift", "mshift", "ndir", "nfat", "first_dir", "txn", "cutoff",
             "first_minifat", "nminifat", "first_difat", "ndifat"}
 HdrClasses(l) == {0, 1, 2, 3, 4, 9, 12, Len(l.fat), Len(l.fat) + 1, 4096, 65534, MAXREG, FREE, ENDC, FATM, U31}
@@ -87,7 +89,11 @@ EmitCorruptions ==
     /\ \A c \in Corruptions(Lay) :
          PrintT(<<"CORRUPT", ToJson([lay |-> Apply(Lay, c), cor |-> Desc(c), site |-> Site(Lay, c)])>>)
     /\ (PairSample > 0 =>
-          \A p \in RandomSubset(PairSample, Corruptions(Lay) \X Corruptions(Lay)) :
+          \* the product itself can exceed what TLC enumerates (a million elements): sample each
+          \* side first (60 x PairSample/60 pairs)
+          \A p \in RandomSubset(IF Cardinality(Corruptions(Lay)) < 60 THEN Cardinality(Corruptions(Lay)) ELSE 60, Corruptions(Lay))
+                    \X RandomSubset(IF Cardinality(Corruptions(Lay)) < PairSample \div 60 + 1 THEN Cardinality(Corruptions(Lay))
+                                    ELSE PairSample \div 60 + 1, Corruptions(Lay)) :
             PrintT(<<"CORRUPT", ToJson([lay |-> Apply(Apply(Lay, p[1]), p[2]),
                                         cor |-> Desc(p[1]) \o " & " \o Desc(p[2]),
                                         site |-> Site(Lay, p[1]) \o "&" \o Site(Lay, p[2])])>>))
